@@ -457,6 +457,7 @@ class Ctx:
             s0, n = job
             out = []
             s = s0
+            flaky = 0
             while s < s0 + n:
                 r = subprocess.run([str(exe)] + list(args) + [str(s), str(s0 + n - s)], capture_output=True, text=True, timeout=timeout, env=e)
                 runs = parse_runs(r.stdout)
@@ -476,9 +477,30 @@ class Ctx:
                     s += 1
                     continue
                 last = runs[-1]
+                repro = True
                 if last["verdict"] == "ok" and (r.returncode != 0 or not last["complete"]):
-                    last["verdict"] = "crash rc=%s" % r.returncode
-                    last["stderr"] = r.stderr[-2000:]
+                    # The process died without a VRT verdict.  A failing input must replay: re-run the
+                    # culprit seed (and its successor, the crash may belong to the next run's start)
+                    # alone; a crash that does not reproduce is an infrastructure flake (threads are
+                    # uncontrolled for a few instructions while they start/exit), recorded, not judged.
+                    culprit = s + len(runs) - 1
+                    repro = flaky >= 3
+                    for _ in range(0 if repro else 2):
+                        rr = subprocess.run([str(exe)] + list(args) + [str(culprit), "2"], capture_output=True, text=True, timeout=timeout, env=e)
+                        rruns = parse_runs(rr.stdout)
+                        if rr.returncode != 0 and not any(l.startswith("VERDICT") for x in rruns for l in x["lines"]):
+                            repro = True
+                            break
+                    if repro:
+                        last["verdict"] = "crash rc=%s" % r.returncode
+                        last["stderr"] = r.stderr[-2000:]
+                    else:
+                        flaky += 1
+                        self.cov.setdefault("flaky_crashes_not_reproduced", []).append(
+                            "%s seed=%d rc=%s %s" % (" ".join(args), culprit, r.returncode, r.stderr[-300:].replace("\n", " | ")))
+                        if not last["complete"]:
+                            out.pop()       # incomplete trace of a run that completes when replayed: run it again below
+                            runs = runs[:-1]
                 s += len(runs)
             if drv is not None and out:
                 text = "".join("RUN %s\n%s\nEND\n" % (" ".join(run["header"]), "\n".join(run["lines"])) for run in out)
